@@ -187,12 +187,16 @@ def summarise(I, n, it, st):
                 ov.stores.append(nrec)
         elif isinstance(cv, DictVal):
             for k, v in cv.d.items():
-                if k not in ov.d or vkey(ov.d[k]) != vkey(v):
-                    ov.d[k] = Opaque(f"dict entry {k!r} written in loop") if (_fv(v) & (entry_names | {ivar})) else v
+                if k in ov.d and (memo.get(id(ov.d[k])) is v or vkey(ov.d[k]) == vkey(v)): continue
+                if isinstance(v, (ListVal, DictVal, LocalArr, Obj)) and inv.get(id(v)) in orig:
+                    ov.d[k] = orig[inv[id(v)]]; continue
+                ov.d[k] = Opaque(f"dict entry {k!r} written in loop") if (_fv(v) & (entry_names | {ivar})) else v
         elif isinstance(cv, Obj):
             for k, v in cv.attrs.items():
-                if k not in ov.attrs or vkey(ov.attrs[k]) != vkey(v):
-                    ov.attrs[k] = Opaque(f"attribute {k} written in loop")
+                if k in ov.attrs and (memo.get(id(ov.attrs[k])) is v or vkey(ov.attrs[k]) == vkey(v)): continue
+                if isinstance(v, (ListVal, DictVal, LocalArr, Obj)) and inv.get(id(v)) in orig:
+                    ov.attrs[k] = orig[inv[id(v)]]; continue
+                ov.attrs[k] = Opaque(f"attribute {k} written in loop")
     for nm, v in final.items():
         st.env[nm] = v
     if not is_while and isinstance(n.target, ast.Name):
